@@ -35,6 +35,7 @@ RowClauses(c) ==
   \cup (IF ~c.nanKept THEN {"unrecoverable_stays_unrecoverable"} ELSE {})
   \cup (IF ~c.keysEqual THEN {"same_keys"} ELSE {})
   \cup (IF ~c.valuesEqual THEN {"equivalent_values"} ELSE {})
+  \cup (IF ~c.formOK THEN {"entry_form_follows_mode"} ELSE {})      \* use_sympy: dictionaries of sympy objects; otherwise the text; nan either way
 FileClauses(c) == IF c.written # c.loaded THEN {"row_i_stays_row_i"} ELSE {}
 SetOf(s) == {s[i] : i \in 1..Len(s)}
 TransferClauses(c) ==
